@@ -128,7 +128,7 @@ fn refuse(size: usize) -> bool {
 
 // --- large-block cache -------------------------------------------------------
 // First touch of fresh anonymous memory is extremely slow in this sandbox
-// (~75 us per 4 KiB page: a 200 MB table costs seconds). The damage sweeps
+// (50-800 us per 4 KiB page, billed as USER time: a 200 MB table costs 10 s). The damage sweeps
 // legitimately meet many allocations of 1..256 MiB (record table sized by a
 // damaged index), so blocks of at least 1 MiB are rounded up to a power of
 // two and one freed block per size class is kept and handed out again, which
@@ -161,6 +161,12 @@ fn class_layout(c: usize) -> Layout {
 pub static WARMED: AtomicU64 = AtomicU64::new(0);
 pub static WARMING: AtomicU64 = AtomicU64::new(0);
 
+unsafe extern "C" {
+    // libc is linked by std; declared here because no libc crate is used
+    fn madvise(addr: *mut u8, len: usize, advice: i32) -> i32;
+}
+const MADV_POPULATE_WRITE: i32 = 23;
+
 unsafe fn big_alloc(c: usize) -> *mut u8 {
     let p = CACHE[c].swap(std::ptr::null_mut(), Ordering::AcqRel);
     if !p.is_null() {
@@ -169,14 +175,11 @@ unsafe fn big_alloc(c: usize) -> *mut u8 {
     unsafe {
         let p = System.alloc(class_layout(c));
         if !p.is_null() {
-            // fault the whole block in now (slow in this sandbox, see above)
+            // Map the whole block in one system call: a page fault costs
+            // 50-800 us in this sandbox (the trap, not the page), populating
+            // in the kernel is two orders of magnitude cheaper.
             WARMING.fetch_add(1, Ordering::SeqCst);
-            let n = 1usize << (20 + c);
-            let mut i = 0;
-            while i < n {
-                std::ptr::write_volatile(p.add(i), 0);
-                i += 4096;
-            }
+            let _ = madvise(p, 1usize << (20 + c), MADV_POPULATE_WRITE);
             WARMED.fetch_add(1, Ordering::SeqCst);
             WARMING.fetch_sub(1, Ordering::SeqCst);
         }
